@@ -393,6 +393,11 @@ func evalConstructorDeclareStmt(vm *r.VM, node *syntax.FunctionDeclareStmt) erro
 	if !ok {
 		return zerr.InvalidClassType(className.GetLiteral())
 	}
+	// a type imported from another module or from a library is shared with every other
+	// program that imports it: like its name, its constructor is read-only
+	if module != vm.GetCurrentModule() && module != r.NativeCodeModule {
+		return zerr.AssignToConstant()
+	}
 
 	//// there are some different Factors from normal method function:
 	// 1. no outerScope (clousure scope)
